@@ -489,6 +489,21 @@ class MdParserConfig:
     def __post_init__(self):
         validate_fields(self)
 
+    def __getstate__(self) -> dict[str, Any]:
+        """Drop a slug function that cannot be pickled (e.g. one defined in ``conf.py``).
+
+        Sphinx pickles the environment, which holds this config;
+        the config itself is re-created from ``conf.py`` for every build.
+        """
+        import pickle
+
+        state = self.__dict__.copy()
+        try:
+            pickle.dumps(state["heading_slug_func"])
+        except Exception:
+            state["heading_slug_func"] = None
+        return state
+
     def copy(self, **kwargs: Any) -> "MdParserConfig":
         """Return a new object replacing specified fields with new values.
 
